@@ -153,6 +153,10 @@ pub(crate) struct G<'a> {
     pub(crate) sessions: usize,
     pub(crate) packets: usize,
     pub(crate) reencoded: usize,
+    /// counter of malformed datagrams (subsampling of the `ipid` op)
+    mal_n: u64,
+    /// what the last `session` op left (the generator itself never calls flute)
+    pub(crate) stash: std::rc::Rc<std::cell::RefCell<crate::Stash>>,
 }
 
 impl<'a> G<'a> {
@@ -303,6 +307,7 @@ impl<'a> G<'a> {
         let obs = self.step(&s.op());
         let h = obs.strip_prefix("ok ")?.to_string();
         self.step(&format!("wire parse {}", h));
+        self.step(&format!("wire ipid {}", h));
         self.step(&format!("wire rfc {}", h));
         let d = rd::unhex(&h)?;
         if keep {
@@ -726,6 +731,7 @@ impl<'a> G<'a> {
         let h = hex(d);
         self.ctx.count(&format!("scheme:spec:{}", f.cp));
         self.step(&format!("wire parse {}", h));
+        self.step(&format!("wire ipid {}", h));
         self.step(&format!("wire plct {}", h));
         if with_ext {
             let mut hets: Vec<u8> = Vec::new();
@@ -996,6 +1002,11 @@ impl<'a> G<'a> {
         self.step(&format!("wire parse {}", h));
         if lvl & 1 != 0 {
             self.step(&format!("wire plct {}", h));
+            // a few hundred of the malformed / mutated datagrams also go through the inline payload id decoder
+            self.mal_n += 1;
+            if self.mal_n % 48 == 0 || self.thorough && self.mal_n % 8 == 0 {
+                self.step(&format!("wire ipid {}", h));
+            }
         }
         // the Lean spec decoder works on lists of naturals: keep `rfc` on long datagrams sparse in quick
         if lvl & 2 != 0 && (d.len() <= 200 || self.thorough || self.rng.chance(1, 8)) {
@@ -1245,7 +1256,7 @@ impl<'a> G<'a> {
     }
 }
 
-pub fn run(ctx: &mut Ctx, eng: &mut dyn Engine) {
+pub fn run(ctx: &mut Ctx, eng: &mut dyn Engine, stash: std::rc::Rc<std::cell::RefCell<crate::Stash>>) {
     ctx.rule = "lct: 5 CCI x 3 TSI x 8 TOI width classes, {min,max,random} value per class, codepoints {0,1,2,5,6,129,255,random} x A/B x PSI 0..3 \
                 (full flag product at the class minima); pkt: the same width classes x 6 FEC schemes x 16 extension sets (SCT, in-band CENC, in-band FTI, \
                 profile) + FDT packets, per-scheme EXT_FTI grids (transfer length, E, B, parity, scheme-specific) and payload-id grids over the SBN/ESI \
@@ -1270,7 +1281,7 @@ pub fn run(ctx: &mut Ctx, eng: &mut dyn Engine) {
     let rng = Rng::new(ctx.seed);
     let thorough = ctx.tier_thorough;
     let rng2 = Rng::new(ctx.seed ^ 0x5EED_0F1D_7C06);
-    let mut g = G { ctx, eng, rng, rng2, corpus: Vec::new(), thorough, sampled: Vec::new(), sessions: 0, packets: 0, reencoded: 0 };
+    let mut g = G { ctx, eng, rng, rng2, corpus: Vec::new(), thorough, sampled: Vec::new(), sessions: 0, packets: 0, reencoded: 0, mal_n: 0, stash };
     g.phase_lct();
     g.phase_pkt();
     g.phase_spec();
